@@ -91,6 +91,12 @@ fn variant(d: &mut Dec, base: &[ModeSpec], p: &GenParams) -> (Vec<ModeSpec>, &'s
                 }
             }
             7 => {
+                if v[mi].transitions.len() >= 2 && d.bool() {
+                    // the same transitions in another order (only constructible through serde,
+                    // ScannerMode::new insists on sorted lists); order matters to the lookup
+                    v[mi].transitions.swap(0, 1);
+                    return (v, "transitions_reordered");
+                }
                 v[mi].name = format!("{}_R", v[mi].name);
                 return (v, "mode_renamed");
             }
@@ -563,14 +569,14 @@ impl Check for C13 {
                 modes: modes.clone(),
                 ..Case::default()
             };
-            if kind != "failing" && domain_ok(&c).is_err() {
+            if kind != "failing" && kind != "transitions_reordered" && domain_ok(&c).is_err() {
                 return Ok(discard("discard_domain"));
             }
             if modes.is_empty() || modes.iter().any(|m| m.pats.is_empty()) {
                 return Ok(discard("discard_shape"));
             }
             for m in modes {
-                if !m.transitions.windows(2).all(|w| w[0].0 < w[1].0)
+                if (kind != "transitions_reordered" && !m.transitions.windows(2).all(|w| w[0].0 < w[1].0))
                     || m.transitions.iter().any(|t| t.1 >= modes.len())
                 {
                     return Ok(discard("discard_transitions"));
@@ -592,7 +598,15 @@ impl Check for C13 {
                     ..m.clone()
                 })
                 .collect();
-            let sm: Vec<scnr::ScannerMode> = named.iter().map(|m| m.to_scnr()).collect();
+            // through serde, so that transition lists arrive exactly as written
+            let sm: Vec<scnr::ScannerMode> = match named
+                .iter()
+                .map(|m| serde_json::from_value::<scnr::ScannerMode>(m.to_json()))
+                .collect::<Result<Vec<_>, _>>()
+            {
+                Ok(v) => v,
+                Err(e) => crate::run::harness_error(&format!("C13: configuration does not deserialize: {}", e)),
+            };
             let r = guard(|| {
                 (
                     scnr::ScannerBuilder::new().add_scanner_modes(&sm).build(),
